@@ -2,7 +2,11 @@
 //! (`fibre_logging::verif::CustomRoller`, hook H5) with an injected clock in a scratch directory and
 //! print the directory after every operation in the canonical form of /verif/ocaml/eng_roller.ml.
 //!
-//! case:   <gran> <maxsize|-> <retained|-> <maxuncompressed|-> <prefix> <fsuffix|_> <csuffix|_> <p0> <off0>
+//! case:   <gran> <maxsize|-> <retained|-> <maxuncompressed|-> <prefix> <fsuffix|_> <csuffix|_> <p0> <off0> <foreign|->
+//!         foreign = comma list of files pre-created before the appender starts, file i holding the marker
+//!         record (900+i)/5:  t:<p>:<s> = "<prefix>_time.<period>.<s><fsuffix>",  x:<p>:<s> = "<prefix>x.<period>.<s><fsuffix>",
+//!         d:<p>:<s> = "<prefix>.extra.<period>.<s><fsuffix>"  (sibling appenders sharing the prefix),  u = "unrelated.dat";
+//!         they are listed as F<i>=<recs> while they keep their name
 //!         ( w <period> <off> <id> <len> | r <period> <off> | f )*
 //! output: "<res> <listing>" after start, after every op, and after the final drop, joined by " | ".
 //!
@@ -126,6 +130,7 @@ struct Names {
   prefix: String,
   fsuffix: String,
   csuffix: String,
+  foreign: Vec<String>,
 }
 
 /// real file name -> canonical token (sort key, text).  Unparseable names stay visible as X<raw>.
@@ -133,6 +138,9 @@ fn canon_name(n: &Names, g: &Gran, file: &str) -> ((u8, i64, i64, u8), String, b
   let active = format!("{}{}", n.prefix, n.fsuffix);
   if file == active {
     return ((0, 0, 0, 0), "A".to_string(), false);
+  }
+  if let Some(i) = n.foreign.iter().position(|f| f == file) {
+    return ((3, i as i64, 0, 0), format!("F{}", i), false);
   }
   let parse = |rest: &str, z: bool| -> Option<((u8, i64, i64, u8), String, bool)> {
     let rest = rest.strip_suffix(n.fsuffix.as_str())?;
@@ -156,7 +164,7 @@ fn canon_name(n: &Names, g: &Gran, file: &str) -> ((u8, i64, i64, u8), String, b
   if let Some(r) = parse(file, false) {
     return r;
   }
-  ((2, 0, 0, 0), format!("X{}", file), false)
+  ((4, 0, 0, 0), format!("X{}", file), false)
 }
 
 fn listing(dir: &Path, n: &Names, g: &Gran) -> String {
@@ -190,7 +198,7 @@ fn run(toks: &[&str]) -> String {
   let opt = |s: &str| if s == "-" { None } else { Some(s.parse::<u64>().unwrap()) };
   let g = gran(toks[0]);
   let unders = |s: &str| if s == "_" { String::new() } else { s.to_string() };
-  let names = Names { prefix: toks[4].to_string(), fsuffix: unders(toks[5]), csuffix: unders(toks[6]) };
+  let mut names = Names { prefix: toks[4].to_string(), fsuffix: unders(toks[5]), csuffix: unders(toks[6]), foreign: Vec::new() };
   let c = COUNTER.with(|c| {
     c.set(c.get() + 1);
     c.get()
@@ -210,11 +218,32 @@ fn run(toks: &[&str]) -> String {
       max_uncompressed_sequences: k as u32,
     }),
   };
+  // foreign files (sibling appenders sharing the prefix, unrelated files) exist before the appender starts
+  if toks[9] != "-" {
+    for (i, spec) in toks[9].split(',').enumerate() {
+      let f: Vec<&str> = spec.split(':').collect();
+      let name = if f[0] == "u" {
+        "unrelated.dat".to_string()
+      } else {
+        let per = policy.format_period(g.instant(num(f[1]), 0));
+        let stem = match f[0] {
+          "t" => format!("{}_time", names.prefix),
+          "x" => format!("{}x", names.prefix),
+          "d" => format!("{}.extra", names.prefix),
+          k => panic!("bad foreign kind {k}"),
+        };
+        format!("{}.{}.{}{}", stem, per, f[2], names.fsuffix)
+      };
+      fs::write(dir.join(&name), record_bytes(900 + i as u64, 5)).expect("create foreign file");
+      names.foreign.push(name);
+    }
+  }
   // with compression off the roller still recognises DEFAULT ".gz" files; none exist here
   let list_names = Names {
     prefix: names.prefix.clone(),
     fsuffix: names.fsuffix.clone(),
     csuffix: if policy.compression.is_some() { names.csuffix.clone() } else { ".gz".to_string() },
+    foreign: names.foreign.clone(),
   };
   let mut outs: Vec<String> = Vec::new();
   let mut roller: Option<CustomRoller> = None;
@@ -236,7 +265,7 @@ fn run(toks: &[&str]) -> String {
       dead = true;
     }
   }
-  let mut i = 9;
+  let mut i = 10;
   while !dead && i < toks.len() {
     let (adv, res) = match toks[i] {
       "w" => {
